@@ -268,6 +268,20 @@ class Shadow:
             return frozenset((op[1], op[2])) in self.edges
         raise AssertionError(op)
 
+    def raises(self, op):
+        """the call raises (and, by the comparison made at the end of every history, changes nothing)"""
+        k = op[0]
+        has = lambda n: n in self.comp and self.comp[n] != 'missing'
+        if k == 'set':
+            return op[1] not in self.comp
+        if k in ('change', 'rmnode'):
+            return not has(op[1])
+        if k == 'addedge':
+            return op[1] not in self.comp or op[2] not in self.comp
+        if k == 'rmedge':
+            return not (has(op[1]) and has(op[2])) or frozenset((op[1], op[2])) not in self.edges
+        return False
+
     def outside(self, op):
         # addEdge on an existing node without the attribute: the edge is added, then KeyError
         return op[0] == 'addedge' and op[1] in self.comp and op[2] in self.comp and \
@@ -420,7 +434,7 @@ class H(Harness):
     TIE_IMPORT = 'From EpyV Require Import Model.Loci Tie.C01.'
     CHECK_FN = 'EpyV.Tie.C01.check_case'
     QUICK_N = 1400
-    THOROUGH_N = 9000
+    THOROUGH_N = 4000
     CASE_TIMEOUT = 20
     ALLOWED_AXIOMS = set()
     RULE = ('histories of 1-40 calls of setCompartment/changeCompartment/addNode/removeNode/addEdge/removeEdge (about 70 % '
@@ -556,8 +570,12 @@ class H(Harness):
             for hist in itertools.product(alpha, repeat=depth):
                 sh = Shadow([0, 1], [(0, 1)], init)
                 ok = True
-                for op in hist:
+                for j, op in enumerate(hist):
                     if sh.outside(op):
+                        ok = False; break
+                    if depth >= 3 and j < depth - 1 and sh.raises(op):
+                        # a call that raises changes nothing (that is compared wherever it is the LAST call of a
+                        # history), so what follows it is a shorter history that is enumerated on its own
                         ok = False; break
                     sh.apply(op)
                 if ok:
